@@ -1,4 +1,4 @@
 From Coq Require Import Extraction ExtrOcamlBasic.
-From TK Require Import Cli_Model Cli_Spec Cli_Argv_Model Cli_Argv_Spec Cli.
+From TK Require Import Cli_Model Cli_Spec Cli_Argv_Model Cli_Argv_Spec Cli_IntParse_Model Cli.
 Extraction "c20_model.ml" cli_decide cli_main gen_tables gen_read_loop gen_read_check gen_mfc mfc_of_shape to_matrix_with read_with spec_decide obs_ok doc_tables
-  read_data_fixed read_data_shipped transpose write_matrix cli_decide_argv spec_argv obs_ok_argv gen_options.
+  read_data_fixed read_data_shipped transpose write_matrix cli_decide_argv spec_argv obs_ok_argv gen_options int_parse.
